@@ -268,6 +268,7 @@ func (e *Engine) Explore(fn *ssa.Function) (*HarnessStats, error) {
 	start := time.Now()
 	var mu sync.Mutex
 	cond := sync.NewCond(&mu)
+	exploreStart := time.Now()
 	queue := []workItem{{nil, 0}}
 	active := 0
 	stop := false
@@ -344,6 +345,12 @@ func (e *Engine) Explore(fn *ssa.Function) (*HarnessStats, error) {
 			}
 			e.record(st, &res, in)
 			if e.cfg.MaxPaths > 0 && st.Paths >= e.cfg.MaxPaths {
+				st.Truncated = len(queue) > 0 || active > 0
+				stop = true
+			}
+			if len(st.Violations) >= 10 && time.Since(exploreStart) > 4*time.Minute {
+				// the property is already refuted many times over and the exploration is slow (a change that makes
+				// paths run into the step limit, for instance): report what was found instead of running for hours
 				st.Truncated = len(queue) > 0 || active > 0
 				stop = true
 			}
